@@ -303,6 +303,8 @@ func treeCorpus() []Case {
 		{Kind: "tree", Ops: []Ent{{Name: "d/l", Type: "hardlink", Link: "d"}}},
 		// shared directory subtrees doubling at each level
 		{Kind: "tree", Ops: shareDirs(18)},
+		// 2^40 paths to d0 without any cycle (depth 40 only): the prefetch walk must not enumerate paths
+		{Kind: "tree", Ops: shareDirs(40)},
 		// hardlink to the root / implicit ancestor
 		{Kind: "tree", Ops: []Ent{{Name: "x/y/l", Type: "hardlink", Link: "x"}}},
 		{Kind: "tree", Ops: []Ent{{Name: "x/l", Type: "hardlink", Link: ""}, {Name: "x/m", Type: "hardlink", Link: "/"}}},
